@@ -376,7 +376,110 @@ def blocks_facts(repo):
     return "Blocks.lean", "\n".join(out) + "\n", rep
 
 
+# ------------------------------------------------------------------ dask proximity (C07)
+def find_nested(func, name):
+    for n in ast.walk(func):
+        if isinstance(n, ast.FunctionDef) and n.name == name:
+            return n
+    return None
+
+
+def rat_expr(n, names):
+    """float expression over a few named quantities -> Lean Rat expression (`int(e)` -> floor, e >= 0)"""
+    from fractions import Fraction
+    if isinstance(n, ast.Constant) and isinstance(n.value, (int, float)) and not isinstance(n.value, bool):
+        fr = Fraction(repr(n.value)) if isinstance(n.value, float) else Fraction(n.value)
+        return f"(({fr.numerator} : Rat) / {fr.denominator})"
+    if isinstance(n, ast.Name) and n.id in names:
+        return names[n.id]
+    if isinstance(n, ast.BinOp) and type(n.op) in (ast.Add, ast.Sub, ast.Mult, ast.Div):
+        op = {ast.Add: "+", ast.Sub: "-", ast.Mult: "*", ast.Div: "/"}[type(n.op)]
+        return f"({rat_expr(n.left, names)} {op} {rat_expr(n.right, names)})"
+    if isinstance(n, ast.Call) and call_name(n.func) == "int" and len(n.args) == 1:
+        return f"(Rat.floor {rat_expr(n.args[0], names)})"
+    raise ValueError(f"expression {ast.unparse(n)}")
+
+
+def proximity_facts(repo):
+    rel = "xrspatial/proximity.py"
+    rep = {}
+    ok = True
+    pad = "fun _ _ _ => (-1, -1)"
+    fallback, depth_order, bnan, arrays, coords_chunked, fb_single, res_order = "?", [], False, [], False, False, []
+    try:
+        mod = parse(repo, rel)
+        proc = find_func(mod, "_process")
+        pd = find_nested(proc, "_process_dask") if proc else None
+        if pd is None:
+            raise ValueError("_process_dask not found")
+        top_if = next((st for st in pd.body if isinstance(st, ast.If)), None)
+        if top_if is None:
+            raise ValueError("no fallback test")
+        fallback = ast.unparse(top_if.test)
+        # fallback branch: rechunk everything to one block, pads 0
+        txt = " ".join(ast.unparse(st) for st in top_if.body)
+        fb_single = ("rechunk({0: height, 1: width})" in txt and txt.count("rechunk") >= 3
+                     and "pad_y = pad_x = 0" in txt and "height, width = raster.shape" in txt)
+        names = {"max_distance": "maxd", "cellsize_x": "csx", "cellsize_y": "csy"}
+        pads = {}
+        for st in top_if.orelse:
+            if isinstance(st, ast.Assign) and isinstance(st.targets[0], ast.Name) and st.targets[0].id in ("pad_y", "pad_x"):
+                pads[st.targets[0].id] = rat_expr(st.value, names)
+            if isinstance(st, ast.Assign) and isinstance(st.targets[0], ast.Tuple) and isinstance(st.value, ast.Call) \
+                    and call_name(st.value.func) == "get_dataarray_resolution":
+                res_order = [e.id for e in st.targets[0].elts]
+        call = next((n for n in ast.walk(pd) if isinstance(n, ast.Call) and call_name(n.func) == "map_overlap"), None)
+        if call is None:
+            raise ValueError("no map_overlap")
+        arrays = [ast.unparse(a) for a in call.args[1:]]
+        d = kwarg(call, "depth")
+        depth_order = [e.id for e in d.elts] if isinstance(d, ast.Tuple) and all(isinstance(e, ast.Name) for e in d.elts) else []
+        b = kwarg(call, "boundary")
+        bnan = isinstance(b, ast.Attribute) and b.attr == "nan"
+        if depth_order and all(x in pads for x in depth_order):
+            pad = f"fun maxd csx csy => ({pads[depth_order[0]]}, {pads[depth_order[1]]})"
+            for v in ("maxd", "csx", "csy"):
+                if v not in pad.split("=>", 1)[1]:
+                    pad = pad.replace(f" {v}", " _", 1)
+        else:
+            raise ValueError("pads not found")
+        # coordinates are chunked like the raster
+        ptxt = ast.unparse(proc)
+        coords_chunked = ("xs = da.from_array(xs, chunks=raster.chunks)" in ptxt and "ys = da.from_array(ys, chunks=raster.chunks)" in ptxt)
+    except (ValueError, OSError, AttributeError) as ex:
+        ok = False
+        rep["error"] = str(ex)
+    out = ["/-! GENERATED by harness/facts_dask.py -- the Dask path of proximity / allocation / direction. -/",
+           "namespace XrsVerif.Gen", "",
+           "structure ProximityDaskFact where",
+           "  ok : Bool",
+           "  /-- the test that switches to single-block processing -/",
+           "  fallbackTest : String",
+           "  /-- in that case raster, xs, ys are rechunked to one block of the raster's own shape and the depth is 0 -/",
+           "  fallbackSingleBlock : Bool",
+           "  /-- (rows, columns) halo in cells as a function of max_distance and the x / y cell sizes -/",
+           "  pad : Rat → Rat → Rat → Int × Int",
+           "  /-- names in `depth=(…)`, row axis first -/",
+           "  depthOrder : List String",
+           "  /-- order in which get_dataarray_resolution's result is bound -/",
+           "  resOrder : List String",
+           "  boundaryNaN : Bool",
+           "  /-- arrays mapped together (the data and both coordinate grids) -/",
+           "  arrays : List String",
+           "  coordsChunkedLikeRaster : Bool", "",
+           f"def proximity_dask : ProximityDaskFact := {{\n  ok := {'true' if ok else 'false'}\n"
+           f"  fallbackTest := {lean_str(fallback)}\n  fallbackSingleBlock := {'true' if fb_single else 'false'}\n"
+           f"  pad := {pad}\n  depthOrder := [{', '.join(lean_str(e) for e in depth_order)}]\n"
+           f"  resOrder := [{', '.join(lean_str(e) for e in res_order)}]\n"
+           f"  boundaryNaN := {'true' if bnan else 'false'}\n  arrays := [{', '.join(lean_str(e) for e in arrays)}]\n"
+           f"  coordsChunkedLikeRaster := {'true' if coords_chunked else 'false'}\n}}\n",
+           "end XrsVerif.Gen"]
+    rep.update(ok=ok, pad=pad, fallback=fallback, depth_order=depth_order, arrays=arrays)
+    return "ProximityDask.lean", "\n".join(out) + "\n", rep
+
+
 def generate(repo):
+    yield proximity_facts(repo)
     yield blocks_facts(repo)
     yield overlap_facts(repo)
     yield reduction_facts(repo)
